@@ -71,6 +71,9 @@ def kfSubstr : Builder := fun args =>
   | [a0, a1, a2] => ok (do
     let s ← a0
     if s.isEmpty then pure [] else
+    -- `lenS := len(s)` is a Go int: a string is never longer than MaxInt64.  The guard makes
+    -- that explicit (the index arithmetic below is stated for such lengths only).
+    if (s.length : Int) > maxInt64 then pure [] else
     let ls ← a1
     let ns ← a2
     match atoi ls, atoi ns with
@@ -222,8 +225,7 @@ def unitize (n step : Int) (precision : Int) (delim : Bytes) (units : List Strin
     match exactRank 10 n step 0 (units.length - 1) with
     | none => none
     | some (m, rank) =>
-      if precision > 1000 then none
-      else some (withUnit (fmtIntegral m precision) delim (units.getD rank ""))
+      some (withUnit (fmtIntegral m precision) delim (units.getD rank ""))
 
 def unitHelper (unsigned : Bool) (step : Int) (delim : Bytes) (units : List String) : Builder := fun args =>
   if args.length < 1 || args.length > 2 then errArgCount
@@ -231,6 +233,7 @@ def unitHelper (unsigned : Bool) (step : Int) (delim : Bytes) (units : List Stri
     | .error m => .error m
     | .ok none => errNum
     | .ok (some precision) =>
+      if precision > 1024 then errValue else      -- maxPrecision (stdlib/util.go)
       match args with
       | a :: _ => ok (do
         let v ← a
